@@ -6,7 +6,8 @@ W=/tmp/mutrepo
 rm -rf $W; git -C /repo worktree prune; git -C /repo worktree add -q --detach $W HEAD || exit 2
 for m in $D/*/; do
   name=$(basename $m); prop=${name%%-*}
-  git -C $W reset -q --hard HEAD; git -C $W clean -fdq
+  base=$(cat $m/base 2>/dev/null || git -C /repo rev-parse HEAD)   # a mutant written against an older commit is evaluated there
+  git -C $W checkout -q --detach $base; git -C $W reset -q --hard $base; git -C $W clean -fdq
   if ! git -C $W apply --3way $m/patch.diff 2>/dev/null && ! git -C $W apply $m/patch.diff 2>/dev/null; then echo "$name: PATCH DOES NOT APPLY" >> $OUT; continue; fi
   checks="$prop $(cat $m/checks 2>/dev/null)"
   line="$name:"
